@@ -16,6 +16,7 @@ import (
 	"os"
 	"path/filepath"
 	"runtime"
+	"sort"
 	"strings"
 	"testing"
 	"time"
@@ -82,6 +83,29 @@ func c01Inputs(thorough bool) []c01Input {
 	for _, n := range []int{len(p) + 1, 1023, 1024, 1025, 4096, 65517} {
 		d := append([]byte(p), bytes.Repeat([]byte{'x'}, n-len(p))...)
 		r = append(r, c01Input{Name: fmt.Sprintf("look%d", n), Kind: "look", Data: d, PtrEnd: len(p)})
+	}
+	// look-alikes under 1024 bytes that have the SHAPE of a pointer but an invalid value: not pointers, so they are content like
+	// any other (hashed, stored, named by the emitted pointer) -- they fail the decoder with an ordinary error, not with its
+	// "not a pointer" error, which is a different path through clean
+	oid0 := "4d7a214614ab2935c943f9e0ff69d22eadbb8f32b1258daaa5e2ca24d17e2393"
+	bad := map[string]string{
+		"short-oid":    fmt.Sprintf("version %s\noid sha256:%s\nsize 12345\n", c01Version, oid0[:40]),
+		"spec-v2":      fmt.Sprintf("version https://git-lfs.github.com/spec/v2\noid sha256:%s\nsize 12345\n", oid0),
+		"size-unit":    fmt.Sprintf("version %s\noid sha256:%s\nsize 12 KB\n", c01Version, oid0),
+		"oid-md5":      fmt.Sprintf("version %s\noid md5:%s\nsize 12345\n", c01Version, oid0[:32]),
+		"dup-ext-prio": fmt.Sprintf("version %s\next-0-a sha256:%s\next-0-b sha256:%s\noid sha256:%s\nsize 12345\n", c01Version, oid0, oid0, oid0),
+		"neg-size":     fmt.Sprintf("version %s\noid sha256:%s\nsize -5\n", c01Version, oid0),
+	}
+	var bn []string
+	for k := range bad {
+		bn = append(bn, k)
+	}
+	sort.Strings(bn)
+	for _, k := range bn {
+		if c01ImplParses([]byte(bad[k])) {
+			continue // the decoder of the tree under test accepts it: then it is a pointer for C01's purposes and C08 judges it
+		}
+		r = append(r, c01Input{Name: "lookbad-" + k, Kind: "lookbad", Data: []byte(bad[k])})
 	}
 	return r
 }
@@ -551,7 +575,8 @@ func (e *c01Env) partFilterProcess() c01Part {
 			if fp != nil {
 				fp.Close()
 			}
-			r.Inconcl = "filter-process handshake did not complete"; _ = err
+			r.Inconcl = "filter-process handshake did not complete"
+			_ = err
 			return r
 		}
 		status, out, rerr := fp.Request("clean", "f.bin", in.Data, pk.sizes)
@@ -802,15 +827,15 @@ func c01MergeCases() []c01MergeCase {
 		}
 		r = append(r, c01MergeCase{name: name, base: base, ours: ours, theirs: theirs})
 	}
-	mk("digits-4-to-3", 12, 9, 100)    // ours 1200 bytes, merged 900: new pointer 1 byte shorter
-	mk("digits-4-to-2", 101, 9, 10)    // ours 1010 bytes, merged 90: 2 bytes shorter
-	mk("digits-3-to-2", 20, 5, 10)     // ours 200, merged 50
-	mk("digits-5-to-3", 120, 5, 100)   // ours 12000, merged 500
-	mk("digits-equal-4", 12, 14, 100)  // 1200 -> 1400
-	mk("digits-equal-3", 5, 8, 100)    // 500 -> 800
-	mk("digits-3-to-4", 9, 12, 100)    // 900 -> 1200
-	mk("digits-2-to-4", 9, 120, 10)    // 90 -> 1200
-	mk("merged-1023", 11, 10, 100)     // placeholder sizes, adjusted below
+	mk("digits-4-to-3", 12, 9, 100)   // ours 1200 bytes, merged 900: new pointer 1 byte shorter
+	mk("digits-4-to-2", 101, 9, 10)   // ours 1010 bytes, merged 90: 2 bytes shorter
+	mk("digits-3-to-2", 20, 5, 10)    // ours 200, merged 50
+	mk("digits-5-to-3", 120, 5, 100)  // ours 12000, merged 500
+	mk("digits-equal-4", 12, 14, 100) // 1200 -> 1400
+	mk("digits-equal-3", 5, 8, 100)   // 500 -> 800
+	mk("digits-3-to-4", 9, 12, 100)   // 900 -> 1200
+	mk("digits-2-to-4", 9, 120, 10)   // 90 -> 1200
+	mk("merged-1023", 11, 10, 100)    // placeholder sizes, adjusted below
 	mk("merged-1024", 11, 10, 100)
 	// exact sizes around the pointer cutoff for the merged text: adjust theirs' last line
 	for i := range r {
@@ -1039,7 +1064,9 @@ func (e *c01Env) partExtFail() c01Part {
 			}
 			return f
 		}
-		outcome := func(s string) { r.Outcome = fmt.Sprintf("extfail/%s/%s/%s/%s/%s", strings.SplitN(delivery, " ", 2)[0], phase, pos, beh, s) }
+		outcome := func(s string) {
+			r.Outcome = fmt.Sprintf("extfail/%s/%s/%s/%s/%s", strings.SplitN(delivery, " ", 2)[0], phase, pos, beh, s)
+		}
 
 		switch {
 		case delivery == "inproc":
@@ -1345,7 +1372,7 @@ func c01Main(prop string) {
 
 func c01Describe(c *vx.Check, e *c01Env) {
 	c.Rule = "one execution = one case = one choice vector (input x extension configuration x working-tree state at the named path x chunking x delivery); nothing is sampled. " +
-		"inputs: kinds {LCG binary, ASCII text, zero bytes} x sizes {0,1,2,5,1023,1024,1025,4096,65515,65516,65517} (thorough: +131032,131033, 3 MiB) and pointer look-alikes (canonical pointer text + 'x' padding to 131,1023,1024,1025,4096,65517 bytes). " +
+		"inputs: kinds {LCG binary, ASCII text, zero bytes} x sizes {0,1,2,5,1023,1024,1025,4096,65515,65516,65517} (thorough: +131032,131033, 3 MiB) and pointer look-alikes (canonical pointer text + 'x' padding to 131,1023,1024,1025,4096,65517 bytes; six pointer-SHAPED texts under 1024 bytes with an invalid value: short oid, spec v2, 'size 12 KB', oid md5:, duplicate extension priority, negative size). " +
 		"chunkings: all compositions for sizes<=6, otherwise every set of <=2 cut points from {1,1023,1024,1025,65516,size-1} (look-alikes: also end of the pointer text -1/0/+1) plus 1 byte per read for sizes<=1025; EOF reported separately or together with the last data. " +
 		"working-tree file at the named path: absent, same bytes, prefix of length 0/1/100/1023/1024/1025/size-1, longer by 1 and by 2000. extensions: none, rot (tr; size preserving), chain rot+pfx (pfx prepends 4 bytes). " +
 		"inproc: full product on commands.clean/commands.smudge (+ stored object already present / present with wrong size; the emitted pointer smudged again as one read, 1 byte per read, cut at 1/60/60+120, and for three inputs at every position). " +
